@@ -141,6 +141,9 @@ class _SocksMachine(object):
             (version, method) = struct.unpack('BB', reply)
             if version == 5 and method in [0x00, 0x02]:
                 self.version_reply(method)
+                # the request reply may already be buffered (same segment)
+                if self._data:
+                    self.got_data()
             else:
                 if version != 5:
                     self.version_error(SocksError(
@@ -228,6 +231,10 @@ class _SocksMachine(object):
         # "the I/O-doing" stuff
         self._sender = sender
         self._when_done.fire(sender)
+        # bytes that arrived together with the success reply belong to
+        # the application; don't hold them until more data shows up
+        if self._data:
+            self.got_data()
 
     @_machine.output()
     def _domain_name_resolved(self, domain):
